@@ -43,35 +43,25 @@ theorem findGroupOnDevice_out (st : St) (gbi : Nat) : (findGroupOnDevice st gbi)
   | none => rfl
   | some p => rfl
 
+theorem adaptStep_out (acc : List String × St) (adr : String) : (adaptStep acc adr).2.out = acc.2.out := by
+  obtain ⟨res, s⟩ := acc
+  unfold adaptStep
+  simp only
+  split
+  · rfl
+  · split
+    · rfl
+    · have := findGroupOnDevice_out s ‹Nat›
+      split <;> simp_all
+
 theorem adaptGroups_out (st : St) (lb : List String) : (adaptGroups st lb).2.out = st.out := by
   unfold adaptGroups
-  suffices h : ∀ (l : List String) (acc : List String × St), acc.2.out = st.out →
-      (l.foldl (fun (acc : List String × St) adr =>
-        let (res, st) := acc
-        match st.bGrpIdx adr with
-        | none => (res ++ [adr], st)
-        | some gbi =>
-          let gb := st.bGrp[gbi]?.getD default
-          if gb.onDev != "" then (res ++ [gb.onDev], st)
-          else
-            let (name, st) := findGroupOnDevice st gbi
-            if name != "" then (res ++ [name], st) else (res ++ [gb.newName], st)) acc).2.out = st.out by
-    exact h lb ([], st) rfl
+  suffices h : ∀ (l : List String) (acc : List String × St), (l.foldl adaptStep acc).2.out = acc.2.out by
+    exact h lb ([], st)
   intro l
   induction l with
-  | nil => intro acc h; simpa using h
-  | cons x xs ih =>
-    intro acc h
-    simp only [List.foldl_cons]
-    apply ih
-    obtain ⟨res, s⟩ := acc
-    simp only at h ⊢
-    split
-    · exact h
-    · split
-      · exact h
-      · have := findGroupOnDevice_out s ‹Nat›
-        split <;> simp_all
+  | nil => intro acc; rfl
+  | cons x xs ih => intro acc; simp only [List.foldl_cons]; rw [ih, adaptStep_out]
 
 /-! ### `hasEqualizedLists` only appends member requests -/
 
@@ -90,6 +80,58 @@ theorem foldl_ext {β : Type} (st₀ : St) (f : Bool × St × List String → β
   | nil => intro acc h; exact h
   | cons x xs ih => intro acc h; exact ih _ (hf acc x h)
 
+theorem eqGroups_ext (recur : St → List String → List String → MPath → Bool × St)
+    (hrec : ∀ s la lb p, Ext s (recur s la lb p).2) (st : St) (gai gbi : Nat) :
+    Ext st (eqGroups recur st gai gbi).2 := by
+  unfold eqGroups
+  simp only
+  split
+  · exact Ext.refl st
+  · split
+    · exact Ext.refl st
+    · have h := hrec st (st.aGrp[gai]?.getD default).g.members (st.bGrp[gbi]?.getD default).g.members
+        (.group (st.aGrp[gai]?.getD default).g.name)
+      revert h
+      generalize recur st _ _ _ = res
+      obtain ⟨b, s⟩ := res
+      intro h
+      simp only at h ⊢
+      split
+      · exact h.trans (Ext.of_out_eq rfl)
+      · exact h
+
+theorem pairStep_ext (recur : St → List String → List String → MPath → Bool × St)
+    (hrec : ∀ s la lb p, Ext s (recur s la lb p).2) (st₀ : St) (la lb : List String) (r : Range)
+    (acc : Bool × St × List String) (k : Nat) (h : Ext st₀ acc.2.1) :
+    Ext st₀ (pairStep recur la lb r acc k).2.1 := by
+  obtain ⟨ok, s, ins⟩ := acc
+  unfold pairStep
+  simp only at h ⊢
+  split
+  · exact h
+  · split
+    · exact h
+    · split
+      · exact h
+      · exact h.trans (eqGroups_ext recur hrec s _ _)
+
+theorem rangeStep_ext (recur : St → List String → List String → MPath → Bool × St)
+    (hrec : ∀ s la lb p, Ext s (recur s la lb p).2) (st₀ : St) (la lb : List String) (path : MPath)
+    (acc : Bool × St × List String) (r : Range) (h : Ext st₀ acc.2.1) :
+    Ext st₀ (rangeStep recur la lb path acc r).2.1 := by
+  obtain ⟨ok, s, ins⟩ := acc
+  unfold rangeStep
+  simp only at h ⊢
+  split
+  · exact h
+  · split
+    · exact h.trans (Ext.emitAll _ _ (by
+        intro c hc
+        obtain ⟨m, _, rfl⟩ := List.mem_map.mp hc
+        exact MPath.delCmd_isMember _ _))
+    · exact h.trans (Ext.of_out_eq (adaptGroups_out _ _))
+    · exact foldl_ext st₀ _ (fun acc k hacc => pairStep_ext recur hrec st₀ la lb r acc k hacc) _ _ h
+
 theorem hasEqLists_ext (diff : Differ) :
     ∀ (fuel : Nat) (st : St) (la lb : List String) (path : MPath),
       Ext st (hasEqLists diff fuel st la lb path).2 := by
@@ -101,72 +143,10 @@ theorem hasEqLists_ext (diff : Differ) :
     rw [hasEqLists]
     split
     · exact Ext.refl st
-    · -- the fold over the ranges
-      generalize hrs : diff la.length lb.length _ = rs
-      have key : Ext st ((rs.foldl (fun (acc : Bool × St × List String) r =>
-          let (ok, st, ins) := acc
-          if !ok then acc
-          else match r.kind with
-            | .del => (true, st.emitAll ((la.extract r.lowA r.highA).map path.delCmd), ins)
-            | .ins =>
-              let (l, st) := adaptGroups st (lb.extract r.lowB r.highB)
-              (true, st, ins ++ l)
-            | .eq =>
-              (List.range (r.highA - r.lowA)).foldl (fun (acc : Bool × St × List String) k =>
-                let (ok, st, ins) := acc
-                if !ok then acc
-                else
-                  match st.aGrpIdx (la.getD (r.lowA + k) "") with
-                  | none => acc
-                  | some gai =>
-                    match st.bGrpIdx (lb.getD (r.lowB + k) "") with
-                    | none => (false, st, ins)
-                    | some gbi =>
-                      let ga := st.aGrp[gai]?.getD default
-                      let gb := st.bGrp[gbi]?.getD default
-                      if gb.onDev != "" then (gb.onDev == ga.g.name, st, ins)
-                      else if ga.needed then (false, st, ins)
-                      else
-                        let (b, st) := hasEqLists diff fuel st ga.g.members gb.g.members (.group ga.g.name)
-                        if b then
-                          (true, { st with
-                            aGrp := modAt st.aGrp gai (fun g => { g with needed := true }),
-                            bGrp := modAt st.bGrp gbi (fun g =>
-                              { g with needed := false, onDev := ga.g.name }) }, ins)
-                        else (false, st, ins)) (true, st, ins)) (true, st, [])).2.1) := by
-        apply foldl_ext st
-        · intro acc r hacc
-          obtain ⟨ok, s, ins⟩ := acc
-          simp only at hacc ⊢
-          split
-          · exact hacc
-          · split
-            · exact hacc.trans (Ext.emitAll _ _ (by
-                intro c hc
-                obtain ⟨m, _, rfl⟩ := List.mem_map.mp hc
-                exact MPath.delCmd_isMember _ _))
-            · exact hacc.trans (Ext.of_out_eq (adaptGroups_out _ _))
-            · apply foldl_ext st
-              · intro acc2 k hacc2
-                obtain ⟨ok2, s2, ins2⟩ := acc2
-                simp only at hacc2 ⊢
-                split
-                · exact hacc2
-                · split
-                  · exact hacc2
-                  · split
-                    · exact hacc2
-                    · split
-                      · exact hacc2
-                      · split
-                        · exact hacc2
-                        · split
-                          · exact (hacc2.trans (ih _ _ _ _)).trans (Ext.of_out_eq rfl)
-                          · exact hacc2.trans (ih _ _ _ _)
-              · exact hacc
-        · exact Ext.refl st
+    · have key := foldl_ext st _ (fun acc r hacc => rangeStep_ext (hasEqLists diff fuel) ih st la lb path acc r hacc)
+        (diff la.length lb.length (fun i j => memberEq st (la.getD i "") (lb.getD j ""))) (true, st, []) (Ext.refl st)
       revert key
-      generalize (rs.foldl _ (true, st, [])) = res
+      generalize (List.foldl _ (true, st, []) _) = res
       intro key
       obtain ⟨ok, s, ins⟩ := res
       simp only at key ⊢
